@@ -167,7 +167,11 @@ def feasible_combos(program, design, crossing, excludes):
         collect(f)
     allb = basics + extra
     within = [f for f in design if fm[f]["kind"] == "derived" and not is_complex(program, fm[f])]
-    excl = set(excludes)   # (fid, level name)
+    # Reading decision (documentation silent): an Exclude of a level of a basic
+    # factor that is NOT crossed does not shrink the crossing, even if it makes a
+    # crossed derived level impossible (the design then simply has fewer or no
+    # valid sequences); excludes of crossed levels and of derived levels do.
+    excl = set((f, n) for f, n in excludes if f in crossing or fm[f]["kind"] == "derived")   # (fid, level name)
     feasible = {}
     doms = [level_names(fm[b]) for b in allb]
     for vals in itertools.product(*doms):
@@ -259,7 +263,7 @@ def doc_block(program, bid):
                 combos = feas
                 S = sum(feas.values())
             bd.crossings.append({"factors": list(cr), "S": S, "P": crossing_preamble(program, cr), "su": 1, "cw": 1,
-                                 "combos": combos, "complete": complete})
+                                 "combos": combos, "complete": complete, "rcc_required": bd.rcc})
         bd.min_trials = max([c["trials"] for c in cs if c["kind"] == "MinimumTrials"] + [0])
         _finish(program, bd, mode)
         for c in cs:
@@ -476,7 +480,13 @@ def doc_sem(program, bid=None):
                 pass
             else:
                 raise Unsupported(kind)
+    # require_complete_crossing with combinations that cannot occur: the documentation
+    # says every combination must appear, so the design has no valid sequence
+    unsat = any((not c.get("complete", True)) and c.get("rcc_required", False) for c in bd.crossings)
+    if unsat and forder:
+        constraints.append([[_A("exactlyk"), T + 1], 0, 0, [[0, T]]])
     ds = DocSem()
+    ds.unsat = unsat
     ds.sem = [T, factors, crossings, constraints]
     ds.forder = forder
     ds.levels = {f: level_names(fm[f]) for f in forder}
